@@ -13,6 +13,8 @@ pub mod c11;
 pub mod c13;
 pub mod c14;
 pub mod c15;
+pub mod c17;
+pub mod c18;
 pub mod c20;
 
 type RunFn = fn(&Report);
@@ -31,6 +33,8 @@ pub const CHECKS: &[(&str, &str, RunFn)] = &[
     ("C13", "exploration", c13::run),
     ("C14", "exploration", c14::run),
     ("C15", "exploration", c15::run),
+    ("C17", "exploration", c17::run),
+    ("C18", "exploration", c18::run),
     ("C20", "exploration", c20::run),
 ];
 
